@@ -128,6 +128,11 @@ func DiscreteGamma(alpha float64, ncat int) []float64 {
 	for i := 0; i < ncat-1; i++ {
 		x := float64(i+1) / (float64(ncat))
 		freq[i] = g.Quantile(x)
+		// Quantile is inaccurate for very small values (small alpha):
+		// keep the cut points non decreasing, otherwise a rate is negative
+		if i > 0 && freq[i] < freq[i-1] {
+			freq[i] = freq[i-1]
+		}
 	}
 	for i := 0; i < ncat-1; i++ {
 		freq[i] = IncompleteGamma(freq[i]*beta, alpha+1, lngamma)
